@@ -135,6 +135,8 @@ def _check(case):
             try:
                 sp = p.subpipeline(inputs=I, output_names=set(S))
             except Exception as e:  # noqa: BLE001
+                if "Inconsistent default values" in str(e) and dag.conflicting_defaults(d) & I:
+                    return []  # cutting at a parameter whose consumers disagree on its default: ill-formed, stated refusal
                 return [f"subpipeline(I={sorted(I)}, S={S}) refused a computable request: {type(e).__name__}: {str(e)[:150]}"]
             kept = {f.__name__ for f in sp.functions}
             if kept != calls_expected:
@@ -154,6 +156,8 @@ def _check(case):
                 res = p.map({"foo": dict(kw)} if (scoped and kw) else dict(kw), output_names={pre + s for s in S},
                             parallel=False, storage="dict", **extra)
             except Exception as e:  # noqa: BLE001
+                if "Inconsistent default values" in str(e) and dag.conflicting_defaults(d) & I:
+                    return []
                 return [f"map(output_names={S}, inputs={sorted(I)}, scoped={bool(scoped)}) refused a computable request: {type(e).__name__}: {str(e)[:150]}"]
             got = {s: res[pre + s].output for s in S if pre + s in res}
             for s in S:
